@@ -10,7 +10,7 @@ import (
 type KnownFinding struct {
 	Property    string            `json:"property"`
 	ID          string            `json:"id"`
-	Status      string            `json:"status"` // "open" | "fixed"
+	Status      string            `json:"status"`            // "open" | "fixed"
 	Harness     string            `json:"harness,omitempty"` // regexp on the harness name ("" = any)
 	Assert      string            `json:"assert"`            // regexp on the assertion id
 	Keys        map[string]string `json:"keys,omitempty"`    // key -> regexp; all must match
